@@ -1,7 +1,7 @@
 // Shared driver: reads one case per line on stdin, prints one observation line per case.
 //   amd64 exec <func> <jit> <fake>   | amd64 bool <func> <jit> <0|1>
 //   arm64 exec <func> <jit> <fake>   | arm64 bool <func> <jit> <0|1>
-//   arm   exec <src>  0     <fake>   | arm   bool <src>  0     <0|1>
+//   arm   exec <src>  0     <fake>   | arm   bool <src>  0     <0|1>   | arm exec2 <src> 0 <fake1> <fake2>
 // Output:  <id> OK <event>;<event>;...   |  <id> PANIC <class> <message>
 use crate::injector_core::common::{FuncPtrInternal, SIM};
 use crate::injector_core::patch_trait::PatchTrait;
@@ -37,6 +37,13 @@ pub fn main() {
                 ("arm64", "exec") => { crate::injector_core::patch_arm64::PatchArm64::replace_function_with_other_function(src, fp(x).expect("null fake")); }
                 ("arm64", "bool") => { crate::injector_core::patch_arm64::PatchArm64::replace_function_return_boolean(src, x != 0); }
                 ("arm", "exec") => { crate::injector_core::patch_arm::PatchArm::replace_function_with_other_function(src, fp(x).expect("null fake")); }
+                // the same function patched a second time while the first patch is in place (7th field = the second fake)
+                ("arm", "exec2") => {
+                    let g1 = crate::injector_core::patch_arm::PatchArm::replace_function_with_other_function(src, fp(x).expect("null fake"));
+                    SIM.with(|s| s.borrow_mut().log.push("SECOND".to_string()));
+                    let g2 = crate::injector_core::patch_arm::PatchArm::replace_function_with_other_function(fp(func).unwrap(), fp(p(t[6])).expect("null fake"));
+                    std::mem::forget((g1, g2));
+                }
                 ("arm", "bool") => { crate::injector_core::patch_arm::PatchArm::replace_function_return_boolean(src, x != 0); }
                 _ => panic!("bad case"),
             }
